@@ -10,6 +10,6 @@ CONSTANTS
   Pars <- C08Pars
   Callbacks = {}
   MaxUpd = 3
-  MaxOps = 100
-INVARIANT EmitDone
+  MaxOps = 12
+INVARIANT EmitAtEnd
 CHECK_DEADLOCK FALSE
